@@ -2263,6 +2263,10 @@ class Exec(Engine):
                     self.check_frame(c, entry, s, params, fnode, kind)
                 if kind in ('normal', 'return'):
                     n_normal += 1
+                    if n_normal <= int(os.environ.get('PYVC_EXIT_COVERS', '6')):
+                        # the hypotheses of (some) normal exits must be satisfiable: an `unsat` here means a contradictory
+                        # contract / axiom set or an unsound solver answer -- everything would be "proved" from it
+                        self.covers.append(self.oblige('reach', 'normal-exit', s, TRUE, fnode, expect='sat'))
                     result = NONE if kind == 'normal' else payload
                     b = dict(params)
                     b['result'] = result
